@@ -1,7 +1,14 @@
 """C09 - UDP responses follow BEP 15."""
 from e2e_common import e2e_part
+import importlib.util, os
+_s = importlib.util.spec_from_file_location("c04def9", os.path.join(os.path.dirname(os.path.abspath(__file__)), "C04.py"))
+_m = importlib.util.module_from_spec(_s); _s.loader.exec_module(_m)
+# "every response echoes ITS request's transaction id" also when datagrams are in flight together (pooled buffers):
+# the stress part of C04 (48 concurrent UDP clients against a real frontend), judged with C09's reasons
+_stress = dict(_m.PROP["parts"][0], chk="chkE09", n={"quick": 60, "thorough": 800}, gotags=_m.CONC_TAGS)
 PROP = {
-    "parts": [e2e_part("chkE09", 40, 800)],
+    "parts": [e2e_part("chkE09", 40, 800), _stress],
+    "mutex_rewrite": True,
     "glue": "G09", "chk": "chk09", "explain": "explain09",
     "n": {"quick": 1500, "thorough": 25000},
     "rule": "cases = WriteAnnounce (interval grid incl. sub-second, negative, >= 2^31 s, int64 extremes; counts 0..2^32-1; 0..110 peers per family; both actions x both requester families; "
